@@ -916,6 +916,28 @@ func (e *Env) evalCall(n *ECall) (*Val, error) {
 				return nil, err
 			}
 			return scalar(tAnd(tNot(tEq(a.T, tNull)), tEq(tApp(SInt, "dyntype", a.T), c.typeID(tt))), boolT), nil
+		case "bytes":
+			a, err := e.evalArgs(n.Args)
+			if err != nil {
+				return nil, err
+			}
+			if len(a) != 1 || a[0].T == nil || a[0].T.Sort != SStr {
+				return nil, fmt.Errorf("bytes(string)")
+			}
+			fr := &Frame{c: c}
+			return fr.convert(nil, a[0], types.Typ[types.String], types.NewSlice(types.Typ[types.Byte])), nil
+		case "str":
+			a, err := e.evalArgs(n.Args)
+			if err != nil {
+				return nil, err
+			}
+			if len(a) != 1 || a[0].T == nil || a[0].T.Sort != SSl {
+				return nil, fmt.Errorf("str([]byte)")
+			}
+			fr := &Frame{c: c}
+			return fr.convert(nil, a[0], types.NewSlice(types.Typ[types.Byte]), types.Typ[types.String]), nil
+		case "nobytes":
+			return scalar(c.mkSlice(SInt, nil), types.NewSlice(types.Typ[types.Byte])), nil
 		case "unbox":
 			// unbox(x, T): the value of non-reference type T held in interface value x
 			if len(n.Args) != 2 {
